@@ -1,21 +1,21 @@
 #!/bin/bash
 # seed_round.sh <Cxx> : confirm and run the two round-C mutations of a sub-agent worktree /tmp/wtc-<Cxx>
-# (out/mutA.diff, out/mutB.diff, out/demoA, out/demoB); results in /tmp/seedC/<Cxx>/result_{A,B}.txt
-id=$1; wt=/tmp/wtc-$id
+# (out/mutA.diff, out/mutB.diff, out/demoA, out/demoB); results in $SD/<Cxx>/result_{A,B}.txt
+id=$1; R=${ROUND:-C}; r=$(echo $R | tr A-Z a-z); wt=/tmp/wt$r-$id; SD=/tmp/seed$R
 export GOFLAGS=-mod=mod GOPROXY=off GOSUMDB=off GOTOOLCHAIN=local
 cd $wt || exit 2
 git checkout -q -- .
 git checkout -q --detach $(git -C /repo rev-parse HEAD)
 for X in ${2:-A B}; do
-  out=/tmp/seedC/$id/result_$X.txt; : > $out
+  out=$SD/$id/result_$X.txt; : > $out
   [ -f out/mut$X.diff ] || { echo "no mut$X.diff" >> $out; continue; }
-  go test -vet=off -count=1 ./out/demo$X/ > /tmp/seedC/$id/demo_clean_$X.log 2>&1; echo "clean_demo_rc=$?" >> $out
+  go test -vet=off -count=1 ./out/demo$X/ > $SD/$id/demo_clean_$X.log 2>&1; echo "clean_demo_rc=$?" >> $out
   git apply out/mut$X.diff || { echo "APPLYFAIL" >> $out; continue; }
-  go build ./... > /tmp/seedC/$id/build_$X.log 2>&1; echo "build_rc=$?" >> $out
-  go test -vet=off -count=1 ./out/demo$X/ > /tmp/seedC/$id/demo_mut_$X.log 2>&1; echo "mut_demo_rc=$?" >> $out
-  (cd /verif && VERIF_REPO=$wt ./check $id > /tmp/seedC/$id/check_$X.log 2>&1; echo "check_rc=$?" >> $out)
-  grep -c "^VIOLATION" /tmp/seedC/$id/check_$X.log >> $out
-  grep "^C[0-9][0-9]:" /tmp/seedC/$id/check_$X.log | head -2 >> $out
+  go build ./... > $SD/$id/build_$X.log 2>&1; echo "build_rc=$?" >> $out
+  go test -vet=off -count=1 ./out/demo$X/ > $SD/$id/demo_mut_$X.log 2>&1; echo "mut_demo_rc=$?" >> $out
+  (cd /verif && VERIF_REPO=$wt ./check $id > $SD/$id/check_$X.log 2>&1; echo "check_rc=$?" >> $out)
+  grep -c "^VIOLATION" $SD/$id/check_$X.log >> $out
+  grep "^C[0-9][0-9]:" $SD/$id/check_$X.log | head -2 >> $out
   python3 - $id >> $out <<'PY'
 import json,glob,sys
 sigs={}
@@ -27,4 +27,4 @@ for k,v in list(sigs.items())[:6]: print("SIG", k, "::", v)
 PY
   git checkout -q -- .
 done
-cat /tmp/seedC/$id/result_*.txt
+cat $SD/$id/result_*.txt
